@@ -106,6 +106,11 @@ def entries():
     L.append(ent("nest.dict.list.dict", "a: int, k: int, p: int, n: int, i0: int, i1: int, pt: bool, t: str, px: bool",
                 NEST, "{'r': mklist(n, mkdict(('id', True, i0), ('t', pt, t)), mkdict(('id', True, i1), ('x', px, 0)))}",
                 pre=["0 <= n <= 2", "len(t) <= 2"], timeout=120))
+    L.append(ent("nest.dict.str", "al: str, k: int, ps: bool, v: str",
+                 '("dict", [("s", True, ("str", Nil, (Nil, Nil, k), al, Nil, Nil)), ("z", True, ("none",))], False)',
+                 "mkdict(('s', ps, v))", pre=["len(al) <= 2", "len(v) <= 2"], timeout=90))
+    L.append(ent("nest.list.str", "al: str, n: int, t: str, u: str", '("list_t", ("str", Nil, NOLEN, al, Nil, Nil), NOLEN)',
+                 "mklist(n, t, u)", pre=["len(al) <= 2", "len(t) <= 1", "len(u) <= 1", "0 <= n <= 2"], timeout=90))
     L.append(ent("nest.list.list", "a: int, n: int, m: int, v0: int, v1: int, v2: int",
                 '("list_e", [E, ("list_e", [%s, E], NOLEN)], NOLEN)' % INT_A,
                 "mklist(n, [v2], mklist(m, v0, v1))", pre=["0 <= n <= 2", "0 <= m <= 2"]))
